@@ -11,7 +11,7 @@ def run(prop, tier, seed, replay=None):
     v = Verdict(prop, tier, seed)
     rng = random.Random(seed)
     v.assumptions = ["file layouts: lengths of 0..9 units of 8 KiB, up to 4 files, padding flags; block-aligned ranges inside one piece",
-                     "writer: ranges of whole blocks or ending with the torrent's short last block; stream splits around block boundaries; 0/1/5000 excess bytes; "
+                     "writer: ranges of whole blocks or ending with the torrent's short last block; stream splits around block boundaries; 0/1/5000/16484/40000 excess bytes; "
                      "the piece completed by someone else before segment 0/1/2",
                      "server behaviours: %s; Hoffman (BEP 17) seeds: exact, inclusive range, no length with excess / short, short length, truncated, over-long, 206, 503, bad length, reset" % ", ".join(SERVERS),
                      "full path: single-file, multi-file with a padding file, and 2 MiB pieces; honest / short-range / over-long servers on 127.0.0.1"]
@@ -42,7 +42,7 @@ def run(prop, tier, seed, replay=None):
         for (bg, rl) in ranges:
             for sg in splits:
                 for via in ("write", "readfrom"):
-                    for extra in (0, 1, 5000):
+                    for extra in (0, 1, 5000, 16484, 40000):    # up to more than two whole blocks beyond the range
                         for busy in ((-1, 1) if tier == "quick" else (-1, 0, 1, 2)):
                             cases.append({"kind": "writer", "begin": bg, "rlen": rl, "segs": sg, "via": via, "extra": extra, "busyat": busy})
         for sv in SERVERS:
